@@ -1,4 +1,5 @@
 import Poulpy.Lemmas.Avx
+import Poulpy.Lemmas.AvxIndex
 /-
 C10 — all back ends give bit-identical results: lane level.
 
@@ -389,5 +390,18 @@ example : isOkWith (automorphismAvx (-5) [0, 0, 0, 0, 0, 0, 0, 0] [1, 2, 3, 4, 5
     ∧ isOkWith (automorphismRef (-5) [0, 0, 0, 0, 0, 0, 0, 0] [1, 2, 3, 4, 5, 6, 7, 8]) [1, 4, 7, -2, -5, -8, 3, 6] = true
     ∧ isOkWith (switchRingAvx [9, 9, 9, 9] [1, 2, 3, 4, 5, 6, 7, 8]) [1, 3, 5, 7] = true
     ∧ isOkWith (switchRingAvx [9, 9, 9, 9, 9, 9, 9, 9] [1, 2, 3, 4]) [1, 0, 2, 0, 3, 0, 4, 0] = true := by decide
+
+/-! ### `znx_switch_ring_avx`: general degrees -/
+
+/-- for every pair of power-of-two degrees `n_in = 2^ki`, `n_out = 2^ko` (all pairs the entry assertions admit) and
+all lane contents, the AVX kernel (copy / `< 4` fallback / `span` gathers `a[(4j+l)·gap]` / zero + strided stores
+`res[(i+l)·gap] = a[i+l]`) and the reference kernel (`step_by` zip) both return the ring model's
+`znxSwitchRing` (C09, `Model/Ring.lean`); in particular they are equal and neither reads or writes out of range -/
+theorem switch_ring_avx_eq_ring_model (res a : List W) (ki ko : Nat) (hr : res.length = 2 ^ ko) (ha : a.length = 2 ^ ki) :
+    switchRingAvx res a = .ok (ofI (znxSwitchRing res.length (toI a))) ∧ switchRingAvx res a = switchRingRef res a := by
+  obtain ⟨h1, h2⟩ := switchRing_all res a ki ko hr ha
+  exact ⟨h2, by rw [h1, h2]⟩
+example : isOkWith (switchRingAvx [9, 9, 9, 9] [1, 2, 3, 4, 5, 6, 7, 8, 9, 10, 11, 12, 13, 14, 15, 16]) [1, 5, 9, 13] = true
+    ∧ ofI (znxSwitchRing 4 (toI [1, 2, 3, 4, 5, 6, 7, 8, 9, 10, 11, 12, 13, 14, 15, 16])) = [1, 5, 9, 13] := by decide
 
 end C10
